@@ -80,7 +80,8 @@ package indexer
 //@ import evmtypes "github.com/EscanBE/evermint/v12/x/evm/types"
 
 // isEthTx = app/antedl/utils.IsEthereumTx: trusted summary of code outside this check's packages (the ante helpers are
-// decided with C06/C07): an Ethereum-shaped transaction carries exactly one message, a *MsgEthereumTx.
+// decided with C06/C07): an Ethereum-shaped transaction carries exactly one message, a *MsgEthereumTx
+// (single(tx), vocabulary of prelude/40_ante_tx.spec).
 // ethShapedBytes(b): the transaction encoded by b is Ethereum-shaped — a function of the bytes (decoding is deterministic
 // and decoded transactions are not mutated; txSrc, prelude/44_misc_client.spec, remembers the source of a decoded object)
 //@ ghost func ethShapedBytes(b bytes) bool
@@ -88,7 +89,7 @@ package indexer
 //@   assumed
 //@   modifies nothing
 //@   ensures result == ethShapedBytes(txSrc[payload(tx)])
-//@   ensures result ==> (tx != nil && len(tx.GetMsgs()) == 1 && typeof(tx.GetMsgs()[0]) == type(*evmtypes.MsgEthereumTx) && unbox(tx.GetMsgs()[0], type(*evmtypes.MsgEthereumTx)) != nil)
+//@   ensures result ==> (tx != nil && single(payload(tx)))
 //@   panics never
 
 // ---------------------------------------------------------------------------------------------
